@@ -13,8 +13,6 @@ mod map32;
 mod map64;
 #[cfg(all(any(kani, mmtk_verif), target_pointer_width = "64"))]
 pub use self::map64::verif_hooks as verif_hooks_map64;
-#[cfg(any(kani, mmtk_verif))]
-pub use self::map32::verif_hooks as verif_hooks_map32;
 
 #[cfg(target_pointer_width = "32")]
 pub fn create_vm_map() -> Box<dyn VMMap + Send + Sync> {
